@@ -285,7 +285,18 @@ func lockstep(c config, p rProg, ref *refState, obs *observation) lsResult {
 			surv = append(surv, i)
 		}
 	}
-	// wrong-path stores are a violation by themselves (memory has no rollback)
+	// MVP-6.0/6.1 write results straight into the register file: a register
+	// write-back by a squashed instruction is an architectural wrong-path effect.
+	if (c.V == "mvp6-0" || c.V == "mvp6-1") && st.SquashedRegWB > 0 {
+		for _, d := range dyn {
+			if d.Squashed && d.RegWB > 0 {
+				res.Class = "wrong-path-regwrite"
+				res.Pc = d.Pc
+				res.Detail = fmt.Sprintf("squashed instruction pc=%d seq=%d wrote its result into the register file", d.Pc, d.Seq)
+				return res
+			}
+		}
+	}
 	n := len(ref.Trace)
 	for k := 0; k < n; k++ {
 		step := ref.Trace[k]
@@ -319,7 +330,7 @@ func lockstep(c config, p rProg, ref *refState, obs *observation) lsResult {
 			res.Class = "wrong-result"
 			res.Step = k
 			res.Pc = step.Pc
-			res.Sub = explain(p, ref, k, got, obs.Log[d.Exec].Mem)
+			res.Sub = explain(p, ref, k, got, obs.Log[d.Exec].Mem, squashedRegVals(dyn, obs))
 			res.Detail = fmt.Sprintf("step %d pc=%d (%s): reference %s, machine %s [%s]", k, step.Pc, in.Text, want, got, res.Sub)
 			return res
 		}
@@ -364,7 +375,7 @@ func lockstep(c config, p rProg, ref *refState, obs *observation) lsResult {
 
 // explain tries to reproduce the observed effect of reference step k by
 // re-evaluating the instruction with alternative inputs.
-func explain(p rProg, ref *refState, k int, got effect, gotMem []int8) string {
+func explain(p rProg, ref *refState, k int, got effect, gotMem []int8, wrongPath map[int][]int32) string {
 	step := ref.Trace[k]
 	in := p.Ins[step.Idx]
 	// history of register values before step k: for each register the list of values (newest first)
@@ -499,6 +510,21 @@ func explain(p rProg, ref *refState, k int, got effect, gotMem []int8) string {
 			}
 		}
 	}
+	// a value produced by a squashed (wrong-path) instruction
+	for _, r := range srcs {
+		for _, v := range wrongPath[r] {
+			a, b := step.A, step.B
+			if in.Rs1 == r {
+				a = v
+			}
+			if in.Rs2 == r {
+				b = v
+			}
+			if try(a, b, step.Loaded) {
+				return fmt.Sprintf("wrong-path-operand(%s)", regNames[r])
+			}
+		}
+	}
 	if len(srcs) == 2 {
 		v1, _ := hist(srcs[0])
 		v2, _ := hist(srcs[1])
@@ -547,4 +573,18 @@ func memBefore(ref *refState, p rProg, j int, addr, sz int32) []int8 {
 		}
 	}
 	return out
+}
+
+// squashedRegVals collects, per register, the values computed by squashed instructions.
+func squashedRegVals(dyn []dynIns, obs *observation) map[int][]int32 {
+	m := map[int][]int32{}
+	for _, d := range dyn {
+		if d.Squashed && d.Exec >= 0 {
+			e := effectOfExec(obs.Log[d.Exec].Exe)
+			if e.HasReg {
+				m[e.Reg] = append(m[e.Reg], e.Val)
+			}
+		}
+	}
+	return m
 }
